@@ -180,6 +180,11 @@ def _uni(R, mspec):
                 pass
             R.twice(f'uni:{name}.{meth}({cname})', getattr(m, meth), (arg,))
         R.twice(f'uni:{name}.sample', m.sample, (5,), reseed=lambda: m.set_random_state(3))
+        if cname == 'ndarray':
+            import copulas.univariate as U
+            d = m.to_dict()
+            R.twice(f'uni:{name}.from_dict', type(m).from_dict, (d,), compare=False)
+            R.twice(f'uni:{name}.Univariate.from_dict', U.Univariate.from_dict, (d,), compare=False)
 
 
 def _biv(R, fam):
@@ -207,6 +212,9 @@ def _biv(R, fam):
         R.twice(f'biv:{fam}.percent_point({cname})', c.percent_point, (y, v))
         R.twice(f'biv:{fam}.generator({cname})', c.generator, (containers_1d(np.array([0.2, 0.7, 1.0]))[cname],))
         R.twice(f'biv:{fam}.sample', c.sample, (4,), reseed=lambda: c.set_random_state(3))
+        if cname == 'ndarray':
+            d = c.to_dict()
+            R.twice(f'biv:{fam}.from_dict', Bivariate.from_dict, (d,), compare=False)
 
 
 def _gm(R, cfg):
